@@ -488,8 +488,14 @@ func VH_C06_Encoding() {
 	fl := th.flags
 	strict := fl&scriptflag.VerifyStrictEncoding != 0
 	derFlags := fl&(scriptflag.VerifyDERSignatures|scriptflag.VerifyLowS|scriptflag.VerifyStrictEncoding) != 0
-	switch {
-	case len(sig) == 0:
+	if len(sig) == 0 {
+		// the empty signature is validly encoded, but the node still checks the key encoding
+		// (CheckSignatureEncoding(empty) succeeds, then CheckPubKeyEncoding runs)
+		if strict && !(len(pub) == 33 && (pub[0] == 2 || pub[0] == 3)) {
+			vassert(err != nil, "C06: empty signature with a malformed key is a hard failure under strict encoding")
+			vreach("c06-enc-empty-badkey")
+			return
+		}
 		vassert(err == nil && len(th.dstack.stk) == 1 && !asBool(th.dstack.stk[0]), "C06: empty signature is false, not an error")
 		vreach("c06-enc-empty")
 		return
